@@ -1338,7 +1338,7 @@ class Arm(Robot):
             jacobian
         """
         theta = self._helper_ensure_theta_not_none(theta)
-        end_effector_temp = self.FK(theta)
+        end_effector_temp = self.FK(theta).copy()
         end_effector_temp[3:6] = np.zeros(3)
         jacobian = self.jacobian(theta)
         return end_effector_temp.inv().adjoint() @ jacobian
